@@ -653,6 +653,16 @@ impl Mp4TrackWriter {
         trak.mdia.minf.stbl.co64 = Some(Co64Box::default());
         match config.media_conf {
             MediaConfig::AvcConfig(ref avc_config) => {
+                if avc_config.seq_param_set.len() < 4 {
+                    return Err(Error::InvalidData("avc seq_param_set is too short"));
+                }
+                if avc_config.seq_param_set.len() > u16::MAX as usize {
+                    return Err(Error::InvalidData("avc seq_param_set is too long"));
+                }
+                if avc_config.pic_param_set.len() > u16::MAX as usize {
+                    return Err(Error::InvalidData("avc pic_param_set is too long"));
+                }
+
                 trak.tkhd.set_width(avc_config.width);
                 trak.tkhd.set_height(avc_config.height);
 
